@@ -217,6 +217,12 @@ ABORT_TARGETS = [
         {"pref": [1, 1], "atoms": [["nst", "w", ["i:a", "k:a", "l:b", "c:a"]],
                                    ["nst", "u", ["k:a", "l:b", "c:a", "d:b", "d:b"]]]}]}],
      {"op": "rename.sc", "slot": 0}),
+    ("rename-sc-wide", [{"op": "build", "slot": 0, "targets": ["j", "i1"], "terms": [
+        {"pref": [1, 1], "atoms": [["nst", "w", ["i3", "j3", "k3", "l3", "m3"]],
+                                   ["nst", "w", ["n3", "o3", "i4", "j4", "j", "i1"]],
+                                   ["nst", "u", ["i3", "j3", "k3", "l3", "m3", "n3", "o3", "i4",
+                                                 "j4"]]]}]}],
+     {"op": "rename.sc", "slot": 0}),
     ("minimize-spin", [{"op": "build", "slot": 0, "targets": ["i:a"], "terms": [
         {"pref": [1, 1], "atoms": [["nst", "w", ["i:a", "k:a", "l:b", "c:a"]],
                                    ["nst", "u", ["k:a", "l:b", "c:a"]]]}]}],
@@ -238,13 +244,17 @@ def abort_sweep_jobs(params, mode="state", stride_other=1):
         if r.get("harness_error") or not r["stats"]["abort_n"]:
             raise RuntimeError(f"abort sweep probe {name} failed: {r.get('harness_error')}")
         n = r["stats"]["abort_n"][0]
-        registry_target = target["op"].startswith("reg.")
+        registry_target = target["op"].startswith("reg.") or name.startswith("rename-sc-") \
+            or name.startswith("minimize-")
         stride = 1 if (registry_target and mode == "state") else stride_other
+        # after the cut the same operation is requested again, uninterrupted
+        post = [dict(target)] if target["op"].startswith("rename.") else []
         for k in range(1, n + 1, stride):
             for kind in (("kbi",) if k % 3 else ("kbi", "mem")):
                 st = dict(target, abort={"kind": kind, "k": k})
                 jobs.append({"kind": "c08", "seed": 0, "run": f"sweep-{name}-{k}-{kind}",
-                             "params": dict(params, abort_mode=mode), "steps": pre + [st]})
+                             "params": dict(params, abort_mode=mode),
+                             "steps": pre + [st] + post})
     return jobs
 
 
